@@ -117,8 +117,7 @@ theorem view_complete_once (b : Branch) (t : Nat) (hw : wf b.g = true) (htip : b
       ((ms.map ofMS).map (·.revno)).Nodup := by
   obtain ⟨ms, hms, hgv⟩ := graphView_full b t hw htip ht true
   refine ⟨ms, hms, ?_, ?_, ?_, ?_⟩
-  · simp only [logRequest, revisionLimits, calcView, generateAll, htip, Bool.not_false, hgv, levelLimit]
-    simp
+  · simp [logRequest, revisionLimits, calcView, generateAll, htip, hgv, levelLimit]
   · have := mergeSort_nodup b.g t ms hw ht hms
     simpa [List.map_map, Function.comp_def, ofMS] using this
   · intro x
@@ -164,11 +163,9 @@ theorem level1_is_lefthand (b : Branch) (t : Nat) (htip : b.tip = some t) (fwd :
     simp [hl v hv]
   cases fwd
   · refine ⟨_, ?_, hLrev, hL0⟩
-    simp only [logRequest, revisionLimits, calcView, htip, hlin]
-    simp [hkeep _ hL0]
+    simp [logRequest, revisionLimits, calcView, htip, hlin, hkeep _ hL0]
   · refine ⟨((b.history.zipIdx).map fun (r, i) => (⟨r, [b.lastRevno - i], 0⟩ : V)).reverse, ?_, ?_, ?_⟩
-    · simp only [logRequest, revisionLimits, calcView, htip, hlin]
-      simp [hkeep _ (fun v hv => hL0 v (List.mem_reverse.mp hv))]
+    · simp [logRequest, revisionLimits, calcView, htip, hlin, hkeep _ (fun v hv => hL0 v (List.mem_reverse.mp hv))]
     · rw [List.map_reverse, hLrev]; rfl
     · intro v hv; exact hL0 v (List.mem_reverse.mp hv)
 
